@@ -30,20 +30,20 @@ pub fn run(case: &Value, em: &mut Emitter) {
                 for item in b.iter_modules() {
                     match item {
                         Ok(m) => {
-                            if m.id() >= 64 { break; }
+                            if m.id() >= 256 { break; }
                             expect_id = m.id() + 1;
                             iter.push(json!({"id": m.id(), "r": {"k": "ok", "v": m.data().to_vec()}}));
                         }
                         Err(_) => {
                             // the failing id is the first id >= expect_id that is not an empty slot
                             let mut id = expect_id;
-                            while id < 64 && matches!(b.get_module(id), Ok(None)) { id += 1; }
-                            if id >= 64 { break; }
+                            while id < 256 && matches!(b.get_module(id), Ok(None)) { id += 1; }
+                            if id >= 256 { break; }
                             iter.push(json!({"id": id, "r": {"k": "err", "v": []}}));
                             expect_id = id + 1;
                         }
                     }
-                    if iter.len() >= 64 { break; }
+                    if iter.len() >= 256 { break; }
                 }
                 json!({"k": "ok", "is": is, "count": num(count.min(u32::MAX as usize) as u32), "startup": startup, "gets": gets, "iter": iter})
             }
@@ -56,7 +56,7 @@ fn le(n: u32) -> [u8; 4] { n.to_le_bytes() }
 
 pub fn gen(rng: &mut Rng, size: usize) -> Value {
     // a model bundle ...
-    let cap = if rng.chance(1, 10) { 50 } else { size as u64 + 2 };
+    let cap = if rng.chance(1, 10) { 140 } else { size as u64 + 2 };
     let nslots = rng.below(cap) as usize;
     let startup: Vec<u8> = (0..1 + rng.below(20)).map(|_| rng.below(256) as u8).collect();
     let slots: Vec<Option<Vec<u8>>> = (0..nslots).map(|_| if rng.chance(1, 4) { None } else {
@@ -95,5 +95,5 @@ pub fn gen(rng: &mut Rng, size: usize) -> Value {
         6 => { let k = rng.below(4) as usize; b[k] = b[k].wrapping_add(1 + rng.below(255) as u8); }
         _ => { for _ in 0..1 + rng.below(4) { let k = rng.below(b.len() as u64) as usize; b[k] = rng.below(256) as u8; } }
     }
-    json!({"op": "bundle", "bytes": b, "nslots": nslots.min(60)})
+    json!({"op": "bundle", "bytes": b, "nslots": nslots.min(150)})
 }
